@@ -68,6 +68,15 @@ def optElems {α} (j : Json) (k : String) (f : Json → Except String α) : Exce
     | Json.null => pure none
     | v => do pure (some (← f v))
 
+/-- an OBSERVED list of pointers: the non-null elements, and whether a null element was present.
+    A conversion result must not contain a nil element (the property says the result EQUALS the
+    source's fields); the judges turn `true` here into `spec := false`. -/
+def obsElems {α} (j : Json) (k : String) (f : Json → Except String α) : Except String (List α × Bool) := do
+  let l ← optElems j k f
+  pure (l.filterMap id, (allSome l).isNone)
+
+def nilElemWhy (what : String) : String := s!"result contains a nil element ({what})"
+
 def decHp (j : Json) : Except String Hugepage := do
   pure { pageSize := ← req j "pageSize" decStr, limit := ← req j "limit" decU64 }
 def decDevCg (j : Json) : Except String DevCgroup := do
@@ -200,7 +209,10 @@ def judgeParse (inp obs : Json) : Except String Verdict := do
   -- successful parse yields valid events only
   let spec := oErr || (BitVec.ofNat 32 oMask &&& ~~~Events.valid) == 0#32
   pure { agree := agree || !ascii, spec := spec, excluded := !ascii,
-         sig := if !ascii then "C14:parse:non-ascii" else if spec then "" else "C14:parse:invalid-bits",
+         sig := if !ascii then (if oErr then "C14:parse:non-ascii:rejected-by-go"
+                                else if agree then "C14:parse:non-ascii:accepted-by-go-and-model"
+                                else "C14:parse:non-ascii:accepted-by-go-only")
+                else if spec then "" else "C14:parse:invalid-bits",
          why := if agree then "" else s!"ParseEventMask{evs}: model {mdl.map (·.toNat)} impl err={oErr} mask={oMask}",
          cover := ["parse", if oErr then "parse:error" else "parse:ok"], nontrivial := !oErr && oMask != 0 }
 
@@ -293,9 +305,10 @@ def judgeResOci (inp obs : Json) : Except String Verdict := do
   let nilsOk2 := match getOpt obs "back", oBack with
     | some j, some r => nilOk (decResNil j) (some j) r.hugepages.length r.devices.length r.unified.length
     | _, _ => true
-  let agree := pnc == "" && decide (mNri = oNri.1) && decide (mBack = oBack) && nilsOk && nilsOk2
+  let obsNil := oNri.2.1 || oNri.2.2
+  let agree := pnc == "" && !obsNil && decide (mNri = oNri.1) && decide (mBack = oBack) && nilsOk && nilsOk2
   -- property on the implementation's own values: both conversions preserve every carried field
-  let spec := pnc == "" && (match src, oNri.1, oBack with
+  let spec := pnc == "" && !obsNil && (match src, oNri.1, oBack with
     | none, none, none => true
     | some s, some n, some b => decide (n.carried = s.carried) && decide (b.carried = s.carried)
     | _, _, _ => false)
@@ -304,9 +317,10 @@ def judgeResOci (inp obs : Json) : Except String Verdict := do
     | some s => carriedTags s.carried ++ tagIf s.memory.isNone "memory:nil" ++ tagIf s.cpu.isNone "cpu:nil" ++
         tagIf (s.uncarried != []) "oci:uncarried-populated"
   pure { agree := agree, spec := spec,
-         why := if !spec then s!"OCI->NRI->OCI does not preserve: FromOCILinuxResources changed {carriedDiffO (src.map (·.carried)) (oNri.1.map (·.carried))}, after ToOCI changed {carriedDiffO (src.map (·.carried)) (oBack.map (·.carried))}; panic='{pnc}' {ctx inp obs}"
+         why := if obsNil then s!"{nilElemWhy "FromOCILinuxResources: hugepageLimits or devices"} {ctx inp obs}"
+                else if !spec then s!"OCI->NRI->OCI does not preserve: FromOCILinuxResources changed {carriedDiffO (src.map (·.carried)) (oNri.1.map (·.carried))}, after ToOCI changed {carriedDiffO (src.map (·.carried)) (oBack.map (·.carried))}; panic='{pnc}' {ctx inp obs}"
                 else if !agree then s!"res_oci: model and implementation differ (nri equal={decide (mNri = oNri.1)} back equal={decide (mBack = oBack)} nil-flags={nilsOk},{nilsOk2}) model nri {show' mNri} {ctx inp obs}" else "",
-         sig := if spec then "" else "C14:res:oci-nri-oci",
+         sig := if obsNil then "C14:nil-element-in-result" else if spec then "" else "C14:res:oci-nri-oci",
          cover := "res_oci" :: tags, nontrivial := src.isSome }
 
 def copyDiff (s c : Option NriResources) : String :=
@@ -324,8 +338,10 @@ def judgeResNri (inp obs : Json) : Except String Verdict := do
   let ociP := getStrD obs "ociPanic"
   let copyP := getStrD obs "copyPanic"
   let oOci ← decOciRes (getOpt obs "oci")
-  let (oBack, _, _) ← decNriRes (getOpt obs "back")
-  let (oCopy, _, _) ← decNriRes (getOpt obs "copy")
+  let (oBack, bNilHp, bNilDv) ← decNriRes (getOpt obs "back")
+  let (oCopy, cNilHp, cNilDv) ← decNriRes (getOpt obs "copy")
+  let backNil := bNilHp || bNilDv
+  let copyNil := cNilHp || cNilDv
   -- faults: ToOCI ranges over hugepages and devices, Copy over hugepages only
   let toFault := nilHp || nilDv
   let cpFault := nilHp
@@ -339,14 +355,15 @@ def judgeResNri (inp obs : Json) : Except String Verdict := do
     | some j, some r => nilOk (decResNil j) (some j) r.hugepages.length r.devices.length r.unified.length
     | _, _ => true
   let agreeTo := if toFault then ociP == "nil-deref"
-    else ociP == "" && decide (mOci = oOci) && decide (mBack = oBack) && nlo && nl "back" oBack
-  let agreeCp := if cpFault then copyP == "nil-deref" else copyP == "" && decide (mCopy = oCopy) && nl "copy" oCopy
-  let excluded := toFault
-  let specTo := toFault || (ociP == "" && (match src, oOci, oBack with
+    else ociP == "" && !backNil && decide (mOci = oOci) && decide (mBack = oBack) && nlo && nl "back" oBack
+  let agreeCp := if cpFault then copyP == "nil-deref" else copyP == "" && !copyNil && decide (mCopy = oCopy) && nl "copy" oCopy
+  -- a nil device element faults ToOCI only: Copy (which does not range over Devices) stays in the domain
+  let excluded := cpFault
+  let specTo := toFault || (ociP == "" && !backNil && (match src, oOci, oBack with
     | none, none, none => true
     | some s, some o, some b => decide (o.carried = s.carried) && decide (b.carried = s.carried)
     | _, _, _ => false))
-  let specCp := cpFault || (copyP == "" && (match src, oCopy with
+  let specCp := cpFault || (copyP == "" && !copyNil && (match src, oCopy with
     | none, none => true
     | some s, some c => decide (c.memory = s.memory) && decide (c.cpu = s.cpu) && decide (c.hugepages = s.hugepages) &&
         decide (c.unified = s.unified) && decide (c.pids = s.pids) && decide (c.blockioClass = s.blockioClass) &&
@@ -358,28 +375,49 @@ def judgeResNri (inp obs : Json) : Except String Verdict := do
         tagIf s.blockioClass.isSome "nri:blockio-set" ++ tagIf s.rdtClass.isSome "nri:rdt-set" ++
         tagIf (s.blockioClass == some []) "nri:blockio-empty-string"
   pure { agree := agreeTo && agreeCp, spec := specTo && specCp, excluded := excluded,
-         why := if !specCp then s!"Copy differs from its source on {copyDiff src oCopy}; panic='{copyP}' {ctx inp obs}"
+         why := if !cpFault && copyNil then s!"{nilElemWhy "Copy: hugepageLimits or devices"} {ctx inp obs}"
+                else if !toFault && backNil then s!"{nilElemWhy "FromOCILinuxResources after ToOCI: hugepageLimits or devices"} {ctx inp obs}"
+                else if !specCp then s!"Copy differs from its source on {copyDiff src oCopy}; panic='{copyP}' {ctx inp obs}"
                 else if !specTo then s!"NRI->OCI->NRI does not preserve: ToOCI changed {carriedDiffO (src.map (·.carried)) (oOci.map (·.carried))}, after FromOCILinuxResources changed {carriedDiffO (src.map (·.carried)) (oBack.map (·.carried))}; panic='{ociP}' {ctx inp obs}"
                 else if !agreeTo then s!"res_nri ToOCI: model and implementation differ (oci equal={decide (mOci = oOci)} back equal={decide (mBack = oBack)}) model oci {show' mOci} panic='{ociP}' {ctx inp obs}"
                 else if !agreeCp then s!"res_nri Copy: model {show' mCopy} panic='{copyP}' {ctx inp obs}" else "",
-         sig := if excluded then "C14:res:nil-element" else if !specCp then "C14:copy" else if !specTo then "C14:res:nri-oci-nri" else "",
+         sig := if excluded then "C14:res:nil-element" else if (!cpFault && copyNil) || (!toFault && backNil) then "C14:nil-element-in-result"
+                else if !specCp then "C14:copy" else if !specTo then "C14:res:nri-oci-nri" else "",
          cover := "res_nri" :: (tags ++ tagIf toFault "res:nil-element"), nontrivial := src.isSome && !excluded }
 
 /-! ### mounts -/
 
+/-- per element of array `k`: "field `lst` is an empty list and flag `fld` says it is a nil slice"
+    (null elements read as `false`) -/
+def nilFlags (j : Json) (k lst fld : String) : Except String (List Bool) := do
+  let a ← getArr j k
+  a.mapM fun x => match x with
+    | Json.null => pure false
+    | v => do
+      let l ← getArr v lst
+      pure (l.isEmpty && getBoolD v fld)
+
 def judgeMountsOci (inp obs : Json) : Except String Verdict := do
   let src ← (← getArr inp "mounts").mapM decOciMount
   let pnc := getStrD obs "panic"
-  let oOut ← (← getArr obs "out").mapM decNriMount
-  let oBack ← (← getArr obs "back").mapM decOciMount
+  let (oOut, outNilElem) ← obsElems obs "out" decNriMount
+  let (oBack, _) ← obsElems obs "back" decOciMount
   let oNil := getBoolD obs "outNil"
   let mOut := fromOCIMounts src
   let mBack := mOut.map fun m => (mountToOCI m none).1
-  let agree := pnc == "" && decide (mOut = oOut) && decide (mBack = oBack) && oNil == appendBuiltNil src.length
+  -- nil-ness of the option slices: FromOCIMounts duplicates (nil iff nil), ToOCI appends (nil iff empty)
+  let inOptNil ← nilFlags inp "mounts" "options" "optionsNil"
+  let outOptNil ← nilFlags obs "out" "options" "optionsNil"
+  let backOptNil ← nilFlags obs "back" "options" "optionsNil"
+  let optNilOk := outOptNil == inOptNil.map dupNil && backOptNil == src.map (fun m => appendBuiltNil m.options.length)
+  if outNilElem then
+    return { agree := false, spec := false, sig := "C14:nil-element-in-result",
+             why := s!"{nilElemWhy "FromOCIMounts"} {ctx inp obs}", cover := ["mounts_oci"], nontrivial := true }
+  let agree := pnc == "" && decide (mOut = oOut) && decide (mBack = oBack) && oNil == appendBuiltNil src.length && optNilOk
   let spec := pnc == "" && decide (oBack = src.map fun m => { m with idMapped := false }) &&
     decide (oOut.map (fun m => (m.destination, m.type, m.source, m.options)) = src.map (fun m => (m.destination, m.type, m.source, m.options)))
   pure { agree := agree, spec := spec, sig := if spec then "" else "C14:mounts:oci-nri-oci",
-         why := if spec && agree then "" else s!"mounts OCI->NRI->OCI: spec={spec} agree={agree} panic='{pnc}' {ctx inp obs}",
+         why := if spec && agree then "" else s!"mounts OCI->NRI->OCI: spec={spec} agree={agree} option-nil-flags={optNilOk} panic='{pnc}' {ctx inp obs}",
          cover := ["mounts_oci", s!"mounts:{sizeTag src.length}"] ++ tagIf (src.any (·.idMapped)) "mounts:idmapped",
          nontrivial := src != [] }
 
@@ -392,14 +430,21 @@ def judgeMountsNri (inp obs : Json) : Except String Verdict := do
     return { agree := pnc == "nil-deref", spec := true, excluded := true, sig := "C14:mounts:nil-element",
              why := if pnc == "nil-deref" then "" else s!"expected a nil dereference, got '{pnc}'", cover := ["mounts_nri", "mounts:nil-element"] }
   | some src =>
-    let oOut ← (← getArr obs "out").mapM decOciMount
-    let oBack ← (← getArr obs "back").mapM decNriMount
+    let (oOut, _) ← obsElems obs "out" decOciMount
+    let (oBack, backNilElem) ← obsElems obs "back" decNriMount
+    if backNilElem then
+      return { agree := false, spec := false, sig := "C14:nil-element-in-result",
+               why := s!"{nilElemWhy "FromOCIMounts after ToOCI"} {ctx inp obs}", cover := ["mounts_nri"], nontrivial := true }
+    let outOptNil ← nilFlags obs "out" "options" "optionsNil"
+    let backOptNil ← nilFlags obs "back" "options" "optionsNil"
+    let wantOptNil := src.map fun m => appendBuiltNil m.options.length
+    let optNilOk := outOptNil == wantOptNil && backOptNil == wantOptNil.map dupNil
     let oQ ← opt obs "query" decStr
     -- thread the query through the mounts in order, as generate.go does
     let (mOut, mQ) := src.foldl (fun (acc : List OciMount × Option Str) m =>
       let (o, q') := mountToOCI m acc.2; (acc.1 ++ [o], q')) ([], q)
     let mBack := fromOCIMounts mOut
-    let agree := pnc == "" && decide (mOut = oOut) && decide (mBack = oBack) && decide (mQ = oQ)
+    let agree := pnc == "" && decide (mOut = oOut) && decide (mBack = oBack) && decide (mQ = oQ) && optNilOk
     -- property: round trip is the identity; the query ends as the last propagation option seen
     let lastProp := (src.flatMap (·.options)).foldl (fun a o => if isPropagation o then some o else a) none
     let specQ := match q with
@@ -407,7 +452,7 @@ def judgeMountsNri (inp obs : Json) : Except String Verdict := do
       | some init => oQ == some (lastProp.getD init)
     let spec := pnc == "" && decide (oBack = src) && specQ
     pure { agree := agree, spec := spec, sig := if spec then "" else "C14:mounts:nri-oci-nri",
-           why := if spec && agree then "" else s!"mounts NRI->OCI->NRI: spec={spec} agree={agree} model query={(mQ.map U)} panic='{pnc}' {ctx inp obs}",
+           why := if spec && agree then "" else s!"mounts NRI->OCI->NRI: spec={spec} agree={agree} option-nil-flags={optNilOk} model query={(mQ.map U)} panic='{pnc}' {ctx inp obs}",
            cover := ["mounts_nri", s!"mounts:{sizeTag src.length}"] ++ tagIf q.isSome "mounts:query" ++ tagIf lastProp.isSome "mounts:propagation",
            nontrivial := src != [] }
 
@@ -416,8 +461,11 @@ def judgeMountsNri (inp obs : Json) : Except String Verdict := do
 def judgeDevsOci (inp obs : Json) : Except String Verdict := do
   let src ← (← getArr inp "devices").mapM decDev
   let pnc := getStrD obs "panic"
-  let oOut ← (← getArr obs "out").mapM decDev
-  let oBack ← (← getArr obs "back").mapM decDev
+  let (oOut, outNilElem) ← obsElems obs "out" decDev
+  let (oBack, _) ← obsElems obs "back" decDev
+  if outNilElem then
+    return { agree := false, spec := false, sig := "C14:nil-element-in-result",
+             why := s!"{nilElemWhy "FromOCILinuxDevices"} {ctx inp obs}", cover := ["devices_oci"], nontrivial := true }
   let oNil := getBoolD obs "outNil"
   let mOut := fromOCIDevices src
   let mBack := mOut.map fun d => deviceToOCI (some d)
@@ -433,8 +481,11 @@ def judgeDevsOci (inp obs : Json) : Except String Verdict := do
 def judgeDevsNri (inp obs : Json) : Except String Verdict := do
   let raw ← optElems inp "devices" decDev
   let pnc := getStrD obs "panic"
-  let oOut ← (← getArr obs "out").mapM decDev
-  let oBack ← (← getArr obs "back").mapM decDev
+  let (oOut, _) ← obsElems obs "out" decDev
+  let (oBack, backNilElem) ← obsElems obs "back" decDev
+  if backNilElem then
+    return { agree := false, spec := false, sig := "C14:nil-element-in-result",
+             why := s!"{nilElemWhy "FromOCILinuxDevices after ToOCI"} {ctx inp obs}", cover := ["devices_nri"], nontrivial := true }
   let oAcc ← strList obs "access"
   let mOut := raw.map deviceToOCI
   let mBack := fromOCIDevices mOut
@@ -460,11 +511,25 @@ def hooksZip (h x : Hooks) : Hooks :=
   ⟨h.prestart ++ x.prestart, h.createRuntime ++ x.createRuntime, h.createContainer ++ x.createContainer,
    h.startContainer ++ x.startContainer, h.poststart ++ x.poststart, h.poststop ++ x.poststop⟩
 
+/-- for each of the six hook lists, per hook: (args is a nil slice, env is a nil slice) -/
+def hookNilFlags (j? : Option Json) : Except String (List (List Bool × List Bool)) := do
+  match j? with
+  | none => pure []
+  | some j =>
+    ["prestart", "createRuntime", "createContainer", "startContainer", "poststart", "poststop"].mapM fun k => do
+      pure (← nilFlags j k "args" "argsNil", ← nilFlags j k "env" "envNil")
+
 def judgeHooksOci (inp obs : Json) : Except String Verdict := do
   let (src, _) ← decHooks (getOpt inp "hooks")
   let pnc := getStrD obs "panic"
-  let (oOut, _) ← decHooks (getOpt obs "out")
+  let (oOut, outBad) ← decHooks (getOpt obs "out")
   let (oBack, _) ← decHooks (getOpt obs "back")
+  if outBad then
+    return { agree := false, spec := false, sig := "C14:nil-element-in-result",
+             why := s!"{nilElemWhy "FromOCIHooks"} {ctx inp obs}", cover := ["hooks_oci"], nontrivial := true }
+  -- args/env are duplicated with DupStringSlice in both directions: nil iff nil
+  let inF ← hookNilFlags (getOpt inp "hooks")
+  let argNilOk := (← hookNilFlags (getOpt obs "out")) == inF && (← hookNilFlags (getOpt obs "back")) == inF
   let oNE := getBoolD obs "nonEmpty"
   let mOut := fromOCIHooks src
   let mBack := mOut.map (hooksMap hookToOCI)
@@ -474,11 +539,11 @@ def judgeHooksOci (inp obs : Json) : Except String Verdict := do
         | .ok ns => ns == (hooksLists h).map (fun l => appendBuiltNil l.length)
         | .error _ => false)
     | _, _ => true
-  let agree := pnc == "" && decide (mOut = oOut) && decide (mBack = oBack) && mNE == oNE && nilsOk
+  let agree := pnc == "" && decide (mOut = oOut) && decide (mBack = oBack) && mNE == oNE && nilsOk && argNilOk
   let spec := pnc == "" && decide (oOut = src) && decide (oBack = src) &&
     (oNE == (match src with | none => false | some h => (hooksLists h).any (· != [])))
   pure { agree := agree, spec := spec, sig := if spec then "" else "C14:hooks:oci-nri-oci",
-         why := if spec && agree then "" else s!"hooks OCI->NRI->OCI: spec={spec} agree={agree} nil-flags={nilsOk} panic='{pnc}' {ctx inp obs}",
+         why := if spec && agree then "" else s!"hooks OCI->NRI->OCI: spec={spec} agree={agree} nil-flags={nilsOk} args/env-nil-flags={argNilOk} panic='{pnc}' {ctx inp obs}",
          cover := ["hooks_oci"] ++ tagIf src.isNone "hooks:nil" ++ tagIf oNE "hooks:nonempty", nontrivial := oNE }
 
 def judgeHooksNri (inp obs : Json) : Except String Verdict := do
@@ -489,20 +554,28 @@ def judgeHooksNri (inp obs : Json) : Except String Verdict := do
     return { agree := pnc == "nil-deref", spec := true, excluded := true, sig := "C14:hooks:nil-element",
              why := if pnc == "nil-deref" then "" else s!"expected a nil dereference, got '{pnc}'", cover := ["hooks_nri", "hooks:nil-element"] }
   let (oOut, _) ← decHooks (getOpt obs "out")
-  let (oBack, _) ← decHooks (getOpt obs "back")
-  let (oApp, _) ← decHooks (getOpt obs "appended")
+  let (oBack, backBad) ← decHooks (getOpt obs "back")
+  let (oApp, appBad) ← decHooks (getOpt obs "appended")
+  if backBad || appBad then
+    return { agree := false, spec := false, sig := "C14:nil-element-in-result",
+             why := s!"{nilElemWhy (if backBad then "FromOCIHooks after ToOCI" else "Append")} {ctx inp obs}", cover := ["hooks_nri"], nontrivial := true }
+  let inF ← hookNilFlags (getOpt inp "hooks")
+  let exF ← hookNilFlags (getOpt inp "extra")
+  let appF := if exF.isEmpty then inF else (inF.zip exF).map fun (a, b) => (a.1 ++ b.1, a.2 ++ b.2)
+  let argNilOk := (← hookNilFlags (getOpt obs "out")) == inF && (← hookNilFlags (getOpt obs "back")) == inF &&
+    (src.isNone || (← hookNilFlags (getOpt obs "appended")) == appF)
   let oNE := getBoolD obs "nonEmpty"
   let mOut := src.map (hooksMap hookToOCI)
   let mBack := fromOCIHooks mOut
   let mApp := src.map fun h => hooksAppend h extra
   let mNE := (hooksHooks src).isSome
-  let agree := pnc == "" && decide (mOut = oOut) && decide (mBack = oBack) && decide (mApp = oApp) && mNE == oNE
+  let agree := pnc == "" && decide (mOut = oOut) && decide (mBack = oBack) && decide (mApp = oApp) && mNE == oNE && argNilOk
   let wantApp := src.map fun h => match extra with
     | none => h
     | some x => hooksZip h x
   let spec := pnc == "" && decide (oOut = src) && decide (oBack = src) && decide (oApp = wantApp)
   pure { agree := agree, spec := spec, sig := if spec then "" else "C14:hooks:nri-oci-nri",
-         why := if spec && agree then "" else s!"hooks NRI->OCI->NRI/Append: spec={spec} agree={agree} panic='{pnc}' {ctx inp obs}",
+         why := if spec && agree then "" else s!"hooks NRI->OCI->NRI/Append: spec={spec} agree={agree} args/env-nil-flags={argNilOk} panic='{pnc}' {ctx inp obs}",
          cover := ["hooks_nri"] ++ tagIf src.isNone "hooks:nil" ++ tagIf oNE "hooks:nonempty" ++ tagIf extra.isSome "hooks:append",
          nontrivial := oNE }
 
@@ -512,7 +585,10 @@ def judgeEnvOci (inp obs : Json) : Except String Verdict := do
   let src ← strList inp "env"
   let isNil := getBoolD inp "nil"
   let pnc := getStrD obs "panic"
-  let oKVs ← (← getArr obs "kvs").mapM decKV
+  let (oKVs, kvNilElem) ← obsElems obs "kvs" decKV
+  if kvNilElem then
+    return { agree := false, spec := false, sig := "C14:nil-element-in-result",
+             why := s!"{nilElemWhy "FromOCIEnv"} {ctx inp obs}", cover := ["env_oci"], nontrivial := true }
   let oEnv ← strList obs "env"
   let oNil := getBoolD obs "outNil"
   let mKVs := fromOCIEnv src
@@ -537,7 +613,10 @@ def judgeEnvNri (inp obs : Json) : Except String Verdict := do
     return { agree := pnc == "nil-deref", spec := true, excluded := true, sig := "C14:env:nil-element",
              why := if pnc == "nil-deref" then "" else s!"expected a nil dereference, got '{pnc}'", cover := ["env_nri", "env:nil-element"] }
   | some src =>
-    let oKVs ← (← getArr obs "kvs").mapM decKV
+    let (oKVs, kvNilElem) ← obsElems obs "kvs" decKV
+    if kvNilElem then
+      return { agree := false, spec := false, sig := "C14:nil-element-in-result",
+               why := s!"{nilElemWhy "FromOCIEnv after ToOCI"} {ctx inp obs}", cover := ["env_nri"], nontrivial := true }
     let oEnv ← strList obs "env"
     let mEnv := src.map kvToOCI
     let mKVs := fromOCIEnv mEnv
@@ -581,9 +660,14 @@ def accepted (ctor arg : String) : Bool :=
   | "FileMode" => ["os.FileMode", "*os.FileMode", "*Opt", "uint32"].contains arg
   | _ => ["T", "*T", "*Opt"].contains arg
 
+/-- the literal `X(nil)`: the untyped nil interface value ("other:nil" is its legacy spelling).
+    IN the property's domain ("map nil to unset"), for every constructor. -/
+def isNilIface (arg : String) : Bool := arg == "nil" || arg == "other:nil"
+
 def judgeCtor (inp obs : Json) : Except String Verdict := do
   let ctor ← getStr inp "ctor"
   let arg ← getStr inp "arg"
+  let nilIface := isNilIface arg
   let isNil := getBoolD inp "nil"
   let i ← req inp "i" decI64
   let u ← req inp "u" decU64
@@ -593,7 +677,7 @@ def judgeCtor (inp obs : Json) : Except String Verdict := do
   let oSet := getBoolD obs "set"
   let oGetSet := getBoolD obs "getSet"
   let ptr {α} (v : α) : Option α := if isNil then none else some v
-  let acc := accepted ctor arg
+  let acc := accepted ctor arg || nilIface
   -- (model result, implementation result, implementation Get result, exact?) all rendered as Option String
   -- `exact`: the mathematical value of the argument equals the mathematical value stored
   let mk {α} [Repr α] [DecidableEq α] (m : Option α) (oVal oGet : α) : Bool × String :=
@@ -608,36 +692,36 @@ def judgeCtor (inp obs : Json) : Except String Verdict := do
   let u32 (x : U64) : U32 := U32.ofNat x.val
   let (agree, txt, wraps) ← match ctor with
     | "String" =>
-      let a : Arg Str := match arg with | "T" => .val s | "*T" => .ptr (ptr s) | "*Opt" => .opt (ptr s) | _ => .other
+      let a : Arg Str := match arg with | "T" => .val s | "*T" => .ptr (ptr s) | "*Opt" => .opt (ptr s) | _ => if nilIface then .nil else .other
       let (ok, t) := mk (optString a) (S (getStrD obs "s")) (S (getStrD obs "getS")); pure (ok, t, false)
     | "Bool" =>
-      let a : Arg Bool := match arg with | "T" => .val b | "*T" => .ptr (ptr b) | "*Opt" => .opt (ptr b) | _ => .other
+      let a : Arg Bool := match arg with | "T" => .val b | "*T" => .ptr (ptr b) | "*Opt" => .opt (ptr b) | _ => if nilIface then .nil else .other
       let (ok, t) := mk (optBool a) (getBoolD obs "b") (getBoolD obs "getB"); pure (ok, t, false)
     | "Int" =>
-      let a : Arg I64 := match arg with | "T" => .val i | "*T" => .ptr (ptr i) | "*Opt" => .opt (ptr i) | _ => .other
+      let a : Arg I64 := match arg with | "T" => .val i | "*T" => .ptr (ptr i) | "*Opt" => .opt (ptr i) | _ => if nilIface then .nil else .other
       let (ok, t) := mk (optInt a) oI gI; pure (ok, t, false)
     | "Int32" =>
-      let a : Arg I32 := match arg with | "T" => .val (i32 i) | "*T" => .ptr (ptr (i32 i)) | "*Opt" => .opt (ptr (i32 i)) | _ => .other
+      let a : Arg I32 := match arg with | "T" => .val (i32 i) | "*T" => .ptr (ptr (i32 i)) | "*Opt" => .opt (ptr (i32 i)) | _ => if nilIface then .nil else .other
       let (ok, t) := mk (optInt32 a) (i32 oI) (i32 gI); pure (ok, t, false)
     | "UInt32" =>
-      let a : Arg U32 := match arg with | "T" => .val (u32 u) | "*T" => .ptr (ptr (u32 u)) | "*Opt" => .opt (ptr (u32 u)) | _ => .other
+      let a : Arg U32 := match arg with | "T" => .val (u32 u) | "*T" => .ptr (ptr (u32 u)) | "*Opt" => .opt (ptr (u32 u)) | _ => if nilIface then .nil else .other
       let (ok, t) := mk (optUInt32 a) (u32 oU) (u32 gU); pure (ok, t, false)
     | "FileMode" =>
       let a : FileModeArg := match arg with
         | "os.FileMode" => .mode (u32 u) | "*os.FileMode" => .pMode (ptr (u32 u)) | "*Opt" => .opt (ptr (u32 u))
-        | "uint32" => .u32 (u32 u) | _ => .other
+        | "uint32" => .u32 (u32 u) | _ => if nilIface then .nil else .other
       let (ok, t) := mk (optFileMode a) (u32 oU) (u32 gU); pure (ok, t, false)
     | "Int64" =>
       let a : Int64Arg := match arg with
         | "int" => .int i | "uint" => .uint u | "int64" => .int64 i | "uint64" => .uint64 u
-        | "*int64" => .pInt64 (ptr i) | "*uint64" => .pUint64 (ptr u) | "*Opt" => .opt (ptr i) | _ => .other
+        | "*int64" => .pInt64 (ptr i) | "*uint64" => .pUint64 (ptr u) | "*Opt" => .opt (ptr i) | _ => if nilIface then .nil else .other
       let unsignedArg := arg == "uint" || arg == "uint64" || arg == "*uint64"
       let (ok, t) := mk (optInt64 a) oI gI
       pure (ok, t, unsignedArg && !isNil && u.val ≥ 2^63)
     | "UInt64" =>
       let a : UInt64Arg := match arg with
         | "int" => .int i | "uint" => .uint u | "int64" => .int64 i | "uint64" => .uint64 u
-        | "*int64" => .pInt64 (ptr i) | "*uint64" => .pUint64 (ptr u) | "*Opt" => .opt (ptr u) | _ => .other
+        | "*int64" => .pInt64 (ptr i) | "*uint64" => .pUint64 (ptr u) | "*Opt" => .opt (ptr u) | _ => if nilIface then .nil else .other
       let signedArg := arg == "int" || arg == "int64" || arg == "*int64"
       let (ok, t) := mk (optUInt64 a) oU gU
       pure (ok, t, signedArg && !isNil && i.val < 0)
@@ -654,13 +738,14 @@ def judgeCtor (inp obs : Json) : Except String Verdict := do
                  else oI.val == i.val && gI.val == i.val
     | _ => if arg == "int" || arg == "int64" || arg == "*int64" then (oU.val : Int) == i.val && (gU.val : Int) == i.val
            else oU.val == u.val && gU.val == u.val
-  let spec := pnc == "" && (if isPtr && isNil then !oSet && !oGetSet else oSet && oGetSet && valueOk)
+  let spec := pnc == "" && (if (isPtr && isNil) || nilIface then !oSet && !oGetSet else oSet && oGetSet && valueOk)
   let excluded := !acc || wraps
   pure { agree := pnc == "" && agree, spec := spec || excluded, excluded := excluded,
          sig := if !acc then "C14:ctor:unaccepted-type" else if wraps then "C14:ctor:value-not-representable"
                 else if spec then "" else "C14:ctor",
          why := if (spec || excluded) && agree then "" else s!"{ctor}({arg}{if isNil then " nil" else ""} i={i.val} u={u.val} b={b}): {txt} panic={pnc}",
-         cover := ["ctor", s!"ctor:{ctor}:{arg}{if isPtr then (if isNil then ":nil" else ":value") else ""}"] ++ tagIf wraps "ctor:wraps",
+         cover := ["ctor", s!"ctor:{ctor}:{arg}{if isPtr then (if isNil then ":nil" else ":value") else ""}"] ++ tagIf wraps "ctor:wraps" ++
+           tagIf nilIface "ctor:nil-interface",
          nontrivial := acc && !wraps }
 
 /-! ### aliasing (measured by the harness) -/
